@@ -273,6 +273,8 @@ impl AbstractTree for BlobTree {
         let config = self.tree_config();
         let mut versions = self.get_version_history_lock();
 
+        let cleared_version = versions.latest_version().version;
+
         versions.upgrade_version(
             &config.path,
             |v| {
@@ -285,7 +287,19 @@ impl AbstractTree for BlobTree {
             },
             &config.seqno,
             &config.visible_seqno,
-        )
+        )?;
+
+        // NOTE: The empty version is published now, so the files of the cleared version
+        // are not referenced anymore and can be freed (once no snapshot uses them anymore)
+        for table in cleared_version.iter_tables() {
+            table.mark_as_deleted();
+        }
+
+        for blob_file in cleared_version.blob_files.iter() {
+            blob_file.mark_as_deleted();
+        }
+
+        Ok(())
     }
 
     fn major_compact(&self, target_size: u64, seqno_threshold: SeqNo) -> crate::Result<()> {
